@@ -157,11 +157,15 @@ class Program:
             for spec in hist['perturbations']:
                 if not self.applicable(spec):
                     continue
+                kw = optsim.var_kwargs(spec)
+                # limits are accepted keyword arguments of the underlying
+                # variable (and have no effect on what a perturbation writes)
+                if spec.get('limits'):
+                    kw['min_val'], kw['max_val'] = spec['limits']
                 self.tol.add_perturbation(
                     spec['type'], mk_sampler(spec['sampler'])
                     if with_samplers else mk_sampler(
-                        {'kind': 'scalar', 'value': 0.0}),
-                    **optsim.var_kwargs(spec))
+                        {'kind': 'scalar', 'value': 0.0}), **kw)
                 self.pspecs.append(spec)
             self.cspecs = []
             for spec in hist.get('compensators', []):
@@ -531,6 +535,10 @@ def gen_perturbation(ch, m, mode, harsh):
     else:
         span = max(abs(nom), 1e-7) * 0.1
     r = ch.rounded
+    if ch.chance(0.2):
+        # limits narrower than what the sampler will produce
+        spec['limits'] = [r(nom - span * ch.uniform(0.05, 0.5), 8),
+                          r(nom + span * ch.uniform(0.05, 0.5), 8)]
     if mode == 'sens':
         kind = 'range'
     else:
